@@ -43,6 +43,8 @@ type FuncContract struct {
 	LoopDec      map[int]ast.Expr
 	StreamInv    map[int][]Clause
 	StreamAssume map[int][]Clause
+	AscendInv    map[int][]Clause
+	AscendStep   map[int][]Clause
 	StreamStep   map[int]map[string][]Clause // per stream, per input trace (IN | INM | END): per-event transfer obligations
 	Flags        map[string]bool // pure, inline, trusted
 	Lets         []Clause        // ghost definitions evaluated at entry: let name: expr
@@ -244,7 +246,7 @@ func (cs *Contracts) parseFile(text string, pkg *types.Package, file string) (er
 		switch {
 		case strings.HasPrefix(l, "func "):
 			sel := strings.TrimSpace(l[5:])
-			cur = &FuncContract{Selector: sel, Pkg: pkg, File: file, LoopInv: map[int][]Clause{}, LoopDec: map[int]ast.Expr{}, StreamInv: map[int][]Clause{}, StreamAssume: map[int][]Clause{}, StreamStep: map[int]map[string][]Clause{}, Flags: map[string]bool{}}
+			cur = &FuncContract{Selector: sel, Pkg: pkg, File: file, LoopInv: map[int][]Clause{}, LoopDec: map[int]ast.Expr{}, StreamInv: map[int][]Clause{}, StreamAssume: map[int][]Clause{}, StreamStep: map[int]map[string][]Clause{}, AscendInv: map[int][]Clause{}, AscendStep: map[int][]Clause{}, Flags: map[string]bool{}}
 			curLemma = nil
 			key := pkg.Path() + "|" + sel
 			if _, dup := cs.Funcs[key]; dup {
@@ -295,6 +297,17 @@ func (cs *Contracts) parseFile(text string, pkg *types.Package, file string) (er
 				cur.LoopDec[n] = parseSpecExpr(strings.SplitN(l, "decreases", 2)[1])
 			default:
 				panic("unknown loop clause: " + l)
+			}
+		case strings.HasPrefix(l, "ascend "):
+			f := strings.Fields(l)
+			n, _ := strconv.Atoi(f[1])
+			switch f[2] {
+			case "invariant":
+				cur.AscendInv[n] = append(cur.AscendInv[n], mkClause(strings.SplitN(l, "invariant", 2)[1]))
+			case "step":
+				cur.AscendStep[n] = append(cur.AscendStep[n], mkClause(strings.SplitN(l, " step ", 2)[1]))
+			default:
+				panic("unknown ascend clause: " + l)
 			}
 		case strings.HasPrefix(l, "stream "):
 			f := strings.Fields(l)
@@ -459,11 +472,28 @@ func (env *SpecEnv) lookupVar(name string) SV {
 			return env.e.readLV(env.st, p, fv.Type().(*types.Pointer).Elem())
 		}
 	}
-	// package-level constants
+	// package-level constants and variables (of this package or of a package of the module it imports)
 	if env.pkg != nil {
-		if obj := env.pkg.Scope().Lookup(name); obj != nil {
+		pkgs := []*types.Package{env.pkg}
+		for _, imp := range env.pkg.Imports() {
+			if strings.HasPrefix(imp.Path(), modPath) {
+				pkgs = append(pkgs, imp)
+			}
+		}
+		for _, p := range pkgs {
+			obj := p.Scope().Lookup(name)
+			if obj == nil {
+				continue
+			}
 			if c, ok := obj.(*types.Const); ok {
 				return env.e.constSV(ssa.NewConst(c.Val(), c.Type()))
+			}
+			if _, ok := obj.(*types.Var); ok && env.e.w != nil {
+				if sp := env.e.w.Prog.Package(p); sp != nil {
+					if g, ok := sp.Members[name].(*ssa.Global); ok {
+						return env.e.loadObj(env.st, env.e.globalAddr(g), g.Type().(*types.Pointer).Elem())
+					}
+				}
 			}
 		}
 	}
@@ -688,6 +718,11 @@ func (env *SpecEnv) call(n *ast.CallExpr) SV {
 			for i, p := range sf.Params {
 				sub = sub.with(p, args[i])
 			}
+			if sf.Pkg != nil && sub.pkg != sf.Pkg {
+				cp := *sub
+				cp.pkg = sf.Pkg // type and constant names in the body belong to the package that declares the spec
+				sub = &cp
+			}
 			return sub.eval(sf.Body)
 		}
 		uf := env.e.applyUF(name, args, env.specRetType(sf))
@@ -715,6 +750,11 @@ func (env *SpecEnv) call(n *ast.CallExpr) SV {
 				sub := env
 				for i, p := range sf.Params {
 					sub = sub.with(p, args[i])
+				}
+				if sf.Pkg != nil && sub.pkg != sf.Pkg {
+					cp := *sub
+					cp.pkg = sf.Pkg
+					sub = &cp
 				}
 				sub.unfold = 1
 				body := sub.eval(sf.Body)
